@@ -288,14 +288,18 @@ func (h *harness) run() {
 			adj.RegisterAdjudicator(&ledgerKey{backend: universe[l].backend, id: universe[l].id}, ledgers[l])
 		}
 	}
-	newFunder := func(ego int) *pmulti.Funder {
+	newFunder := func(ego int, egoFirst bool) *pmulti.Funder {
 		f := pmulti.NewFunder()
+		// (the egoistic ledger may be selected before or after the ledgers' funders are registered)
+		if ego >= 0 && egoFirst {
+			f.SetEgoisticPart(ego)
+		}
 		for l := range universe {
 			if h.reg&(1<<l) != 0 {
 				f.RegisterFunder(&ledgerKey{backend: universe[l].backend, id: universe[l].id}, ledgers[l])
 			}
 		}
-		if ego >= 0 {
+		if ego >= 0 && !egoFirst {
 			f.SetEgoisticPart(ego)
 		}
 		return f
@@ -384,7 +388,7 @@ func (h *harness) run() {
 				case "withdraw":
 					err = adj.Withdraw(ctx, req, subStates)
 				case "fund":
-					err = newFunder(top.ego).Fund(ctx, channel.FundingReq{Params: params, State: state})
+					err = newFunder(top.ego, st.Int("ego_first") == 1).Fund(ctx, channel.FundingReq{Params: params, State: state})
 				}
 				h.mu.Lock()
 				h.seq++
